@@ -281,6 +281,10 @@ type anyMatcher struct{}
 
 func (m *anyMatcher) Match(client.NormalValue) (bool, error) { return true, nil }
 
+type noneMatcher struct{}
+
+func (m *noneMatcher) Match(client.NormalValue) (bool, error) { return false, nil }
+
 type jsonComparingMatcher[T comparable] struct {
 	value        T
 	getValueFunc func(client.JSON) (T, bool)
@@ -360,7 +364,14 @@ func createValueMatcher(condition *fieldFilterCond) (valueMatcher, error) {
 	}
 
 	if condition.val.IsNil() {
-		return &nilMatcher{matchNil: condition.op == opEq}, nil
+		// nil is the least value: everything is greater than or equal to it, only nil is less than or equal to it
+		switch condition.op {
+		case opGe:
+			return &anyMatcher{}, nil
+		case opLt:
+			return &noneMatcher{}, nil
+		}
+		return &nilMatcher{matchNil: condition.op == opEq || condition.op == opLe}, nil
 	}
 
 	switch condition.op {
